@@ -335,7 +335,9 @@ func (c *c16ctx) createNative() (scenario, int64) {
 	// light clients: trust roots (operator witness), header batches, a reorganisation on eth
 	bc := newBscChain(3)
 	syncGen := func(id uint64, hdr []byte) *types.Transaction {
-		args := ser(func(s *common.ZeroCopySink) { (&hscom.SyncGenesisHeaderParam{ChainID: id, GenesisHeader: hdr}).Serialization(s) })
+		args := ser(func(s *common.ZeroCopySink) {
+			(&hscom.SyncGenesisHeaderParam{ChainID: id, GenesisHeader: hdr}).Serialization(s)
+		})
 		return n.opTx(utils.HeaderSyncContractAddress, hscom.SYNC_GENESIS_HEADER, args)
 	}
 	syncHdr := func(id uint64, hdrs ...[]byte) *types.Transaction {
